@@ -84,7 +84,9 @@ SameGroup(s1, s2) == IF C.vec THEN M.kind[s1] = M.kind[s2] ELSE s1 = s2
 GroupLags(s) == {E[q].lag : q \in {q \in 1..Len(E) : SameGroup(E[q].s, s)}}
 HasBuffer(s) == Max(GroupLags(s)) > 1                          \* add_delay
 BufLen(s) == Max(GroupLags(s)) + 1
-SlotP(e) == IF e.lag = 0 /\ "UndelayedSiblingGetsOneStep" \in Dev THEN 1 ELSE e.lag    \* None -> 1
+SlotP(e) == IF e.lag = 0 /\ "UndelayedSiblingGetsOneStep" \in Dev /\ C.form = "nodes" THEN 1 ELSE e.lag    \* None -> 1
+(* Connectivity edges (form = "pop") get their buffer from _add_matrix_delay: one ring per source variable and
+   connection, read at the connection's own lag; there is no sentinel slot *)
 Roll(b, v) == [j \in 1..Len(b) |-> IF j = 1 THEN v ELSE b[j - 1]]       \* buf[:] = roll(buf, 1); buf[0] = v
 
 (* one call of the generated RHS at step counter k with state yv and buffers b: returns <<dy, b'>> *)
@@ -172,7 +174,7 @@ UndeviatedP == Dev = {}
 (* Export at the final state: model, config, expected rows (M), what P computes, which deviations fired *)
 ToRows(rows) == [r \in 1..Len(rows) |-> rows[r]]
 Fired == {d \in Dev :
-            \/ d = "UndelayedSiblingGetsOneStep" /\ \E q \in 1..Len(E) : E[q].lag = 0 /\ HasBuffer(E[q].s)
+            \/ d = "UndelayedSiblingGetsOneStep" /\ C.form = "nodes" /\ \E q \in 1..Len(E) : E[q].lag = 0 /\ HasBuffer(E[q].s)
             \/ d = "RollPerRhsCall" /\ C.solver = "heun" /\ \E s \in Nodes : HasBuffer(s)}
 SetToSeq(S) == LET RECURSIVE F(_)
                    F(T) == IF T = {} THEN <<>> ELSE LET x == CHOOSE x \in T : TRUE IN <<x>> \o F(T \ {x})
